@@ -428,6 +428,15 @@ pub fn ros_bases(quick: bool) -> Vec<RosCase> {
     for sup in &sups {
         for a in &m {
             v.push(RosCase::EventSource { supply: sup.clone(), demand: vec![a.clone()], limit: 120 });
+            // a callback on its own: "one more callback" is then the step from nothing to something
+            v.push(RosCase::Timer { supply: sup.clone(), own: a.clone(), hp: vec![], blocking: 1, limit: 120 });
+            v.push(RosCase::Pp { supply: sup.clone(), own: a.clone(), others: vec![], limit: 120 });
+            v.push(RosCase::Chain { supply: sup.clone(), src: a.0.clone(), costs: vec![CostSpec::Scalar(1), a.1.clone()], others: vec![], limit: 120 });
+            for bw in [false, true] {
+                for k0 in [Kind::Timer, Kind::PolledUnknown, Kind::EventSource, Kind::Polled(1)] {
+                    v.push(RosCase::Sub { bw, supply: sup.clone(), workload: vec![CbCase { arr: a.0.clone(), cost: a.1.clone(), kind: k0, assumed: 5 }], subchain: vec![0], limit: 120 });
+                }
+            }
             for b in &m {
                 v.push(RosCase::EventSource { supply: sup.clone(), demand: vec![a.clone(), b.clone()], limit: 120 });
                 v.push(RosCase::Timer { supply: sup.clone(), own: a.clone(), hp: vec![b.clone()], blocking: 1, limit: 120 });
